@@ -39,7 +39,7 @@ type c09cCase struct {
 
 func genC09Chain(rt *rapid.T) c09cCase {
 	n := gen.Range(rt, "n", 1, 8)
-	c := c09cCase{ChainID: rapid.StringMatching(`[a-z]{3,8}-[0-9]{1,3}`).Draw(rt, "chain"), Tries: uint64(gen.Range(rt, "tries", 1, 5))}
+	c := c09cCase{ChainID: rapid.StringMatching(`[a-z]{3,8}-[0-9]{1,3}`).Draw(rt, "chain"), Tries: uint64(gen.OneOf(rt, "tries", 1, 2, 3, 3, 4, 5, 13, 14, 30, 100))}
 	kind := gen.Uniform(rt, "wk", 4)
 	for i := 0; i < n; i++ {
 		var tok int64
